@@ -48,6 +48,17 @@ int creds_issue(const CertSpec *spec, const SM2_KEY *subject_key, const Ident *i
 		/* the "rich" leaves also carry inhibitAnyPolicy, so that every extension printer of the library gets its turn
 		 * when a verifier dumps a certificate it rejects */
 		if (x509_exts_add_inhibit_any_policy(exts, &extslen, sizeof(exts), X509_non_critical, 2) != 1) return -1;
+		{
+			static const char http[] = "http://crl.sim/ca.crl", ldap[] = "ldap://dir.sim/cn=ca", cai[] = "http://ca.sim/sub.crt", ocsp[] = "http://ocsp.sim/";
+			uint8_t gns[128]; size_t gnslen = 0;
+			if (x509_exts_add_subject_key_identifier_ex(exts, &extslen, sizeof(exts), X509_non_critical, subject_key) != 1
+				|| x509_exts_add_default_authority_key_identifier(exts, &extslen, sizeof(exts), ikey) != 1
+				|| x509_exts_add_crl_distribution_points(exts, &extslen, sizeof(exts), X509_non_critical, http, sizeof(http) - 1, ldap, sizeof(ldap) - 1) != 1
+				|| x509_exts_add_authority_info_access(exts, &extslen, sizeof(exts), X509_non_critical, cai, sizeof(cai) - 1, ocsp, sizeof(ocsp) - 1) != 1
+				|| x509_exts_add_policy_constraints(exts, &extslen, sizeof(exts), X509_non_critical, 1, 1) != 1
+				|| x509_general_names_add_dns_name(gns, &gnslen, sizeof(gns), "alt.sim") != 1
+				|| x509_exts_add_issuer_alt_name(exts, &extslen, sizeof(exts), X509_non_critical, gns, gnslen) != 1) return -1;
+		}
 		int kp[1] = { spec->eku == 1 ? OID_kp_server_auth : OID_kp_client_auth };
 		if (x509_exts_add_ext_key_usage(exts, &extslen, sizeof(exts), X509_non_critical, kp, 1) != 1) return -1;
 	}
